@@ -10,11 +10,8 @@ verus! {
 //@@ trusted Serializer<W> / SizeSerializer: only the fields these functions touch are kept (writer, is_array_elem / is_array_element); methods of `impl ser::Serializer for &mut …` are re-homed (by-value `self` is `&mut`)
 //@@ trusted f32/f64 are not covered here (Kani harnesses rt_f32 / rt_f64 of the codec crate cover them outside arrays)
 
-pub open spec fn be16(x: u16) -> Seq<u8> { seq![(x >> 8) as u8, (x & 0xff) as u8] }
 pub open spec fn be32(x: u32) -> Seq<u8> { seq![(x >> 24) as u8, ((x >> 16) & 0xff) as u8, ((x >> 8) & 0xff) as u8, (x & 0xff) as u8] }
-pub open spec fn be64(x: u64) -> Seq<u8> {
-    seq![(x >> 56) as u8, ((x >> 48) & 0xff) as u8, ((x >> 40) & 0xff) as u8, ((x >> 32) & 0xff) as u8, ((x >> 24) & 0xff) as u8, ((x >> 16) & 0xff) as u8, ((x >> 8) & 0xff) as u8, (x & 0xff) as u8]
-}
+//@@ include fixspec.rs
 #[verifier::external_body] pub fn i16_to_be_bytes(x: i16) -> (r: [u8; 2]) ensures r@ == be16(x as u16) { x.to_be_bytes() }
 #[verifier::external_body] pub fn u16_to_be_bytes(x: u16) -> (r: [u8; 2]) ensures r@ == be16(x) { x.to_be_bytes() }
 #[verifier::external_body] pub fn i32_to_be_bytes(x: i32) -> (r: [u8; 4]) ensures r@ == be32(x as u32) { x.to_be_bytes() }
@@ -42,18 +39,6 @@ pub struct Serializer { pub writer: VecWriter, pub is_array_elem: IsArrayElement
 pub struct SizeSerializer { pub is_array_element: IsArrayElement }
 pub open spec fn added(o: Serializer, f: Serializer) -> Seq<u8> { f.writer.out@.skip(o.writer.out@.len() as int) }
 pub open spec fn appended(o: Serializer, f: Serializer) -> bool { o.writer.out@.len() <= f.writer.out@.len() && f.writer.out@.subrange(0, o.writer.out@.len() as int) =~= o.writer.out@ }
-/// AMQP 1.0 part 1, 1.6: a fixed-width value is its constructor followed by its data octets; inside an array the constructor is written once, with the first element
-pub open spec fn fixed(code: u8, data: Seq<u8>, e: IsArrayElement) -> Seq<u8> { if e is OtherElement { data } else { seq![code] + data } }
-
-pub open spec fn enc_i8(v: i8, e: IsArrayElement) -> Seq<u8> { fixed(0x51u8, seq![v as u8], e) }
-pub open spec fn enc_i16(v: i16, e: IsArrayElement) -> Seq<u8> { fixed(0x61u8, be16(v as u16), e) }
-pub open spec fn enc_i32(v: i32, e: IsArrayElement) -> Seq<u8> { if e is False && -128 <= v <= 127 { seq![0x54u8, v as u8] } else { fixed(0x71u8, be32(v as u32), e) } }
-pub open spec fn enc_u8(v: u8, e: IsArrayElement) -> Seq<u8> { fixed(0x50u8, seq![v], e) }
-pub open spec fn enc_u16(v: u16, e: IsArrayElement) -> Seq<u8> { fixed(0x60u8, be16(v), e) }
-pub open spec fn enc_u32(v: u32, e: IsArrayElement) -> Seq<u8> { if e is False && v == 0 { seq![0x43u8] } else if e is False && v <= 255 { seq![0x52u8, v as u8] } else { fixed(0x70u8, be32(v), e) } }
-pub open spec fn enc_u64(v: u64, e: IsArrayElement) -> Seq<u8> { if e is False && v == 0 { seq![0x44u8] } else if e is False && v <= 255 { seq![0x53u8, v as u8] } else { fixed(0x80u8, be64(v), e) } }
-pub open spec fn enc_char(v: char, e: IsArrayElement) -> Seq<u8> { fixed(0x73u8, be32(v as u32), e) }
-
 impl Serializer {
 //@@ fn file=serde_amqp/src/ser.rs impl=`~ser::Serializer for &'a mut Serializer<W>` name=serialize_i8
 //@@ selfmut
